@@ -953,12 +953,13 @@ package desync
 //@   modifies $consumed
 //@   ensures $consumed >= old($consumed) && ($consumed == old($consumed) || $consumed < 1<<40)
 
+//@ ghost var $short bool
 //@ func (d *FormatDecoder) Next
 //@   prop C19 C04 C05
 //@   safety C19
 //@   checks alloc
 //@   requires $consumed >= 0
-//@   modifies d.advance, $consumed, $rp, $wn, $tlast, $tlen
+//@   modifies d.advance, $consumed, $rp, $wn, $tlast, $tlen, $short
 //@   ensures $consumed >= old($consumed) && ($consumed == old($consumed) || $consumed < 1<<40)
 //# a decoded table or goodbye list is never longer than the input that was read for it
 //@   ensures r1 == nil && is(r0, FormatTable) ==> 40 * len(as(r0, FormatTable).Items) <= $consumed - old($consumed)
@@ -991,13 +992,18 @@ package desync
 //# stack: one call decodes one element and returns - the decoder never calls itself (an element that is skipped must
 //# not cost a stack frame per element: input-sized recursion is memory out of proportion and ends in a fatal stack overflow)
 //@   oncall Next: requires @C19 false
+//# F36: when the reader of the previous payload is drained and the stream ended before the announced number of bytes
+//# ($short: the limited reader still has bytes to go), that is reported as an error - never taken for the end of the archive
+//@   ghost@entry $short = false
+//@   ghost@after:Copy $short = d.advance.N > 0
+//@   ensures @C19 $short ==> r1 != nil && r0 == nil
 
 //@ ghost var $merr error
 //@ ghost var $mlen int
 //@ func (p *Protocol) ReadMessage
 //@   prop C19 C14
 //@   checks alloc
-//@   modifies all, $consumed, $rp, $wn, $tlast, $tlen, $merr, $mlen
+//@   modifies all, $consumed, $rp, $wn, $tlast, $tlen, $short, $merr, $mlen
 //@   ensures $consumed >= old($consumed)
 //@   ensures r1 == nil ==> len(r0.Body) + 16 <= $consumed - old($consumed)
 //# C14: every frame the peer sent is delivered whatever its size (chunk replies are as large as the chunk
@@ -1013,7 +1019,7 @@ package desync
 //@   prop C19 C04
 //@   checks alloc
 //@   requires $consumed >= 0
-//@   modifies all, $consumed, $items, $alg, $rp, $wn, $tlast, $tlen
+//@   modifies all, $consumed, $items, $alg, $rp, $wn, $tlast, $tlen, $short
 //@   safety C19
 //@   ghost@after:Next $items = as($r0, FormatTable).Items
 //@   ensures @C04 err == nil ==> tableMatches(c.Chunks, $items)
@@ -1038,7 +1044,7 @@ package desync
 //@   checks alloc
 //@   requires $consumed >= 0
 //@   requires @C18 confined(a.dir)
-//@   modifies all, $consumed, $rp, $wn, $tlast, $tlen, $wasRooted, $named
+//@   modifies all, $consumed, $rp, $wn, $tlast, $tlen, $short, $wasRooted, $named
 //@   ensures $consumed >= old($consumed)
 //@   ensures @C18 confined(a.dir) && (r1 == nil ==> nodeConfined(r0))
 //@   loop 1: invariant $consumed >= old($consumed) && confined(a.dir) && (name == "" || safeName(name))
@@ -1060,6 +1066,13 @@ package desync
 //@   ensures @C18 r1 == nil && r0 != nil && !is(r0, NodeDirectory) && !old(a.rootNotDir) ==> a.rootNotDir || $named
 //@   ghost@entry $named = false
 //@   ghost@before:Join $named = name != ""
+//# F35: the decoder reports the end of the archive (nil, nil) only when the stream ended with no entry or filename
+//# pending and every directory that was entered closed by its goodbye element (depth counts them, never negative); an
+//# archive cut at an element boundary is an error
+//@   requires @C19 a.depth >= 0
+//@   ensures @C19 a.depth >= 0
+//@   loop 1: invariant a.depth >= 0
+//@   assert@returned @C19 $ret0 == nil && $ret1 == nil ==> entry == nil && name == "" && a.depth == 0
 
 //# the server allocates for chunk data coming from its own store, not from the request stream
 //@ func (s *ProtocolServer) Serve
@@ -2086,14 +2099,14 @@ package desync
 //@ func (p *Protocol) RequestChunk
 //@   prop C03
 //@   safety none
-//@   modifies all, $consumed, $rp, $wn, $tlast, $tlen, $merr, $mlen
+//@   modifies all, $consumed, $rp, $wn, $tlast, $tlen, $short, $merr, $mlen
 //@   oncall NewChunkFromStorage: requires $arg0 == id && !$arg3
 //@   ensures @C03 r1 == nil ==> r0 != nil && r0.idCalculated && r0.id == id && H(plain(r0)) == id
 
 //@ func (r *RemoteSSH) GetChunk
 //@   prop C03
 //@   safety none
-//@   modifies all, $consumed, $rp, $wn, $tlast, $tlen, $merr, $mlen
+//@   modifies all, $consumed, $rp, $wn, $tlast, $tlen, $short, $merr, $mlen
 //@   ensures @C03 r1 == nil ==> r0 != nil && r0.idCalculated && r0.id == id && H(plain(r0)) == id
 
 // ---------------------------------------------------------------------------------------------
